@@ -254,8 +254,9 @@ class LayoutExtractor(object):
                 if self.detect_lines:
                     if not self.detect_regions:
                         regions = page_layout.regions
+                    id_suffix = '_{}'.format(rot) if rot > 0 and not self.detect_regions else ''
                     regions = helpers.assign_lines_to_regions(
-                        b_list, h_list, t_list, regions)
+                        b_list, h_list, t_list, regions, id_suffix=id_suffix)
                 if self.detect_regions:
                     page_layout.regions += regions
 
